@@ -3,6 +3,8 @@ import AITB.Model.Prune
 import AITB.Model.Interp
 import AITB.Model.C12Check
 import AITB.Model.UsefulPoints
+import AITB.Model.WitnessLP
+import Driver.C12LP
 open AITB AITB.Prune AITB.Interp AITB.C12Check
 
 namespace DrvC12
@@ -64,14 +66,105 @@ def Acc.render (a : Acc) : String :=
       | [] => if a.within > 0 then "skip within_tolerance"
               else if a.undecided > 0 then "skip undecided_certificate" else a.v.render
 
+/-! ### recorded lp_solve calls (link-time interception in the harness) -/
+
+structure SnapRow where
+  coef : List XRat
+  rel : Nat
+  rhs : XRat
+
+structure Snap where
+  ncols : Nat
+  maxim : Int
+  unb : List Nat
+  obj : List XRat
+  rows : List SnapRow
+  result : Int
+  objective : XRat
+  vars : List XRat
+
+def snapP : P Snap := do
+  let nc ← P.nat; let nr ← P.nat; let mx ← P.int; let nu ← P.nat; let unb ← P.rep P.nat nu
+  let obj ← P.rep P.x nc
+  let rows ← P.rep (do let c ← P.rep P.x nc; let rel ← P.nat; let rhs ← P.x; pure (SnapRow.mk c rel rhs)) nr
+  let res ← P.int; let o ← P.x; let nv ← P.nat; let vars ← P.rep P.x nv
+  pure ⟨nc, mx, unb, obj, rows, res, o, vars⟩
+
+def snapsP : P (List Snap) := do let n ← P.nat; P.rep snapP n
+
+/-- the recorded rows as model rows (`none`: a non-finite coefficient or an unknown relation code) -/
+def Snap.modelRows (s : Snap) : Option (List WitnessLP.Row) :=
+  s.rows.mapM (fun r => do
+    let c ← r.coef.mapM finQ?; let rel ← WitnessLP.Rel.ofCode r.rel; let rhs ← finQ? r.rhs
+    pure (WitnessLP.Row.mk c rel rhs))
+
+/-- does lp_solve's recorded LP coincide with the LP of the model: columns, sense, free column, objective, every row -/
+def Snap.matches (s : Snap) (ncols : Nat) (maxim : Bool) (free : Nat) (obj : Vec) (rows : List WitnessLP.Row) : Bool :=
+  s.ncols == ncols && s.maxim == (if maxim then 1 else 0) && s.unb == [free] &&
+  s.obj.mapM finQ? == some obj && s.modelRows == some rows
+
+/-- lp_solve's answer as `LP::solve(S, &objective)` returns it: variables only for result codes 0 / 1 -/
+def Snap.answer (s : Snap) (nvars : Nat) : Option (Rat × Vec) :=
+  if s.result == 0 || s.result == 1 then
+    match finQ? s.objective, (s.vars.take nvars).mapM finQ? with
+    | some o, some v => some (o, v)
+    | _, _ => none
+  else none
+
+/-- largest / smallest non-zero magnitude among the coefficients lp_solve received is at least 2^16 -/
+def Snap.wideRange (s : Snap) : Bool :=
+  let cs := (s.rows.flatMap (fun r => r.coef.filterMap finQ?)).filter (fun x => x != 0) |>.map absQ
+  match cs with
+  | [] => false
+  | c :: _ => decide ((cs.foldl minQ c) * 65536 ≤ cs.foldl maxQ c)
+
+def wideVecs (vs : List Vec) : Bool :=
+  let cs := (vs.flatMap id).filter (fun x => x != 0) |>.map absQ
+  match cs with
+  | [] => false
+  | c :: _ => decide ((cs.foldl minQ c) * 65536 ≤ cs.foldl maxQ c)
+
+/-- clause name of a missed witness: what lp_solve itself answered for that LP (0/1 = it claims an optimum with delta ≤ 0), and
+    whether the LP mixes magnitudes (the regime of the open finding C12-witnesslp-mixed-magnitudes); without a recorded call
+    the name of the earlier rounds -/
+def missKind (M : Rat) (sn : Option Snap) : String :=
+  match sn with
+  | none => if decide (M < 1000000) then "missed_witness" else "missed_witness_at_magnitude_above_1e6"
+  | some sn =>
+    let what := if sn.result == 0 || sn.result == 1 then "missed_witness" else
+      if sn.result == 2 then "missed_witness_lp_solve_says_infeasible" else
+      if sn.result == 3 then "missed_witness_lp_solve_says_unbounded" else
+      if sn.result == 5 then "missed_witness_lp_solve_says_numfailure" else
+      if sn.result == 25 then "missed_witness_lp_solve_says_accuracyerror" else "missed_witness_lp_solve_fails"
+    if sn.wideRange then what ++ "_at_dynamic_range_above_2p16" else
+    if decide (M < 1000000) then what else what ++ "_at_magnitude_above_1e6"
+
+/-- exact, lp_solve-independent answer to the witness question `(best, v)`: `(delta*, belief, multipliers over best)` -/
+def exactWitness (S : Nat) (best : List Vec) (v : Vec) : Option (Rat × Vec × Vec) :=
+  DrvC12LP.gameSolve S (best.map (fun g => List.zipWith (fun x y => x - y) v g))
+
+/-- certificate for `r` against `G` from the exact simplex -/
+def exactCert (S : Nat) (idx : Nat) (G : List Vec) (r : Vec) : Option Cert :=
+  match exactWitness S G r with
+  | some (_, b, lam) => some ⟨idx, some lam, some b⟩
+  | none => none
+
 def checkRemoved (comp : String) (S : Nat) (eps : Rat) (arr : List Vec) (e : Nat) (certs : List Cert) (a : Acc) : Acc :=
   let kept := arr.take e
   (List.range (arr.length - e)).foldl (fun a k =>
     let i := e + k
     let r := arr.getD i []
-    match envelopeClause S eps kept r (certs.find? (fun c => c.idx == i)) with
+    -- certificates: the harness's (found with the library's own LP classes); if they do not decide, an exact rational simplex
+    -- that does not touch lp_solve (both are untrusted inputs of `envelopeClause`)
+    let e1 := envelopeClause S eps kept r (certs.find? (fun c => c.idx == i))
+    let e2 := if e1 == .undecided then envelopeClause S eps kept r (exactCert S i kept r) else e1
+    match e2 with
     | .ok => a
-    | .bad => { a with v := a.v.failIf true s!"{comp} removed_vector_needed idx={i} {showVec r}" }
+    | .bad =>
+      let wb := match exactCert S i kept r with
+        | some ⟨_, _, some b⟩ => if violationOK S eps kept b r then s!" belief={showVec b}" else ""
+        | _ => ""
+      { a with v := a.v.failIf true s!"{comp} removed_vector_needed idx={i} {showVec r}{wb}" }
     | .undecided => { a with undecided := a.undecided + 1 }) a
 
 /-- `dom S l r | b` -/
@@ -196,7 +289,7 @@ def prune : P String := do
   let e ← P.nat; let arr ← vecsP n S
   let same ← P.bool
   let calls ← if same then callsP S else pure []
-  let certs ← certsP; let need ← certsP; P.eof
+  let certs ← certsP; let need ← certsP; let snaps ← snapsP; P.eof
   let M := maxAbsL xs
   let eps := (n : Rat) * linkSlack M + tiny M
   -- a comparison of the model is ill-conditioned when a `dominates` test sits on its threshold, or when two different
@@ -216,6 +309,22 @@ def prune : P String := do
   -- extractBestAtSimplexCorners, WitnessLP, extractBestAtPoint, in the order of the source) produces on the same input
   let a := if !same then { a with v := a.v.diffIf true "Pruner result differs from the loop rebuilt from its library pieces" }
            else { a with v := a.v.diffIf (m.1 ++ m.2 != arr || m.1.length != e) s!"Pruner model_kept={m.1.length} impl_kept={e}" }
+  -- L2b, one level down: every LP the real Pruner handed to lp_solve is the LP the WitnessLP model poses for that call
+  -- (rows scaled by the common power of two chosen from the first optimal row), and the answer `findWitness` made of
+  -- lp_solve's reply is the model's (`deltaValue <= 0` discards it)
+  let a := if !same then a else
+    if snaps.length != calls.length then { a with v := a.v.diffIf true (s!"WitnessLP lp_solve was called {snaps.length} times, the rebuilt loop asks {calls.length} questions") } else
+    (List.range calls.length).foldl (fun (a : Acc) i =>
+      match calls[i]?, snaps[i]? with
+      | some c, some sn =>
+        let st := c.best.foldl WitnessLP.addOptimalRow WitnessLP.reset
+        let p := WitnessLP.posed st c.v
+        let rowsOk := sn.matches (S + 2) true S (WitnessLP.lpObjective S) (WitnessLP.lpRows S p)
+        let a := { a with v := a.v.diffIf (!rowsOk) (s!"WitnessLP lp_rows call={i} rows={c.best.length} scale={ratStr (WitnessLP.usedScale st c.v)}") }
+        let mAns := WitnessLP.findWitness (fun _ => sn.answer S) st c.v
+        -- (the recorded reply is the real Pruner's, `c.w` the rebuilt loop's own lp_solve run: two optimal vertices may differ)
+        { a with v := a.v.diffIf (mAns.isSome != c.w.isSome) (s!"WitnessLP answer call={i} model={mAns.isSome} impl={c.w.isSome}") }
+      | _, _ => a) a
   -- oracle contract on the recorded answers (the library's own WitnessLP)
   let badW := calls.any (fun c => match c.w with
     | some w => match normalize w with
@@ -224,12 +333,17 @@ def prune : P String := do
     | none => false)
   let a := { a with v := a.v.failIf badW "WitnessLP witness_below_a_best_vector" }
   -- a `none` answer must not hide a witness: try every belief at hand (simplex probes and the certificates' beliefs)
+  -- and the exact optimum of the witness question itself (rational simplex, independent of lp_solve)
   let cands := probeBeliefs S ++ (certs ++ need).filterMap (fun c => c.b.bind normalize)
-  let missed := calls.find? (fun c => c.w.isNone && cands.any (fun b => violationOK S eps c.best b c.v))
-  let a := match missed with
-    | some c =>
-      let kind := if decide (M < 1000000) then "missed_witness" else "missed_witness_at_magnitude_above_1e6"
-      let msg := s!"WitnessLP {kind} v={showVec c.v} rows={c.best.length}"
+  let candsOf := fun (c : Call) => match exactWitness S c.best c.v with | some (_, b, _) => b :: cands | none => cands
+  let missed := (List.range calls.length).find? (fun i => match calls[i]? with
+    | some c => c.w.isNone && (candsOf c).any (fun b => violationOK S eps c.best b c.v)
+    | none => false)
+  let a := match missed.bind (fun i => calls[i]?.map (fun c => (i, c))) with
+    | some (i, c) =>
+      let kind := missKind M (if snaps.length == calls.length then snaps[i]? else none)
+      let wb := match (candsOf c).find? (fun b => violationOK S eps c.best b c.v) with | some b => showVec b | none => ""
+      let msg := s!"WitnessLP {kind} v={showVec c.v} rows={c.best.length} belief={wb}"
       { a with v := a.v.failIf true msg }
     | none => a
   let a := { a with v := a.v.failIf (!(isPermB xs arr) || e > n) "Pruner not_a_permutation" }
@@ -246,12 +360,86 @@ def prune : P String := do
     let k := kept.getD i []
     let others := kept.eraseIdx i
     if others.isEmpty then a else
-    match neededClause S (tiny M) (tiny M / 1000) (Gen.equalToleranceSmall * (1 + M)) extra others k (need.find? (fun c => c.idx == i)) with
+    let n1 := neededClause S (tiny M) (tiny M / 1000) (Gen.equalToleranceSmall * (1 + M)) extra others k (need.find? (fun c => c.idx == i))
+    -- fallback on the exact simplex: its belief may only show that `k` IS needed, its multipliers that `k` is covered; the
+    -- exact-tie test stays on the structural beliefs (probes, recorded witness points): at the simplex optimum a covered
+    -- vector that touches the envelope ties it by construction, which is not the exact corner/face tie the clause is about
+    let n2 := if n1 != .undecided then n1 else
+      match exactWitness S others k with
+      | some (_, b, lam) =>
+        if strictNeededOK S (tiny M) others b k then .ok
+        else neededClause S (tiny M) (tiny M / 1000) (Gen.equalToleranceSmall * (1 + M)) extra others k (some ⟨i, some lam, none⟩)
+      | none => n1
+    match n2 with
     | .ok => a
-    | .bad => { a with v := a.v.failIf true s!"Pruner unneeded_vector_kept idx={i} {showVec k}" }
+    | .bad =>
+      -- a set that mixes magnitudes (largest / smallest non-zero entry ≥ 2^16) is the regime of the open finding
+      -- C12-witnesslp-mixed-magnitudes (lp_solve answers the witness LP wrongly, here with a spurious witness): own clause name
+      let kind := if wideVecs xs then "unneeded_vector_kept_at_dynamic_range_above_2p16" else "unneeded_vector_kept"
+      { a with v := a.v.failIf true s!"Pruner {kind} idx={i} {showVec k}" }
     | .within => { a with within := a.within + 1 }
     | .undecided => { a with undecided := a.undecided + 1 }) a
   return a.render
+
+/-- `reuse S n nWarm vecs warm | eUsed arrUsed eFresh arrFresh` : `Pruner(S)` applied to `vecs` by an object that has just pruned
+    `warm`, and by a fresh object.  `Pruner::operator()` is a function of its arguments (the model starts from `reset()`, and
+    every theorem about `pruner` is about that function): the two results must coincide. -/
+def reuse : P String := do
+  let S ← P.nat; let n ← P.nat; let nW ← P.nat; let xs ← vecsP n S; let _warm ← vecsP nW S; P.bar
+  let eU ← P.nat; let arrU ← vecsP n S; let eF ← P.nat; let arrF ← vecsP n S; P.eof
+  let v : Verdict := { tag := "reuse" }
+  if eU == eF && arrU == arrF then return v.render
+  -- the results differ: is the difference above the documented tolerance?  A vector kept by one object and not by the other,
+  -- whose exact margin against the kept set of the object that dropped it exceeds the envelope slack, is a needed vector lost by that object
+  let M := maxAbsL xs
+  let eps := (n : Rat) * linkSlack M + tiny M
+  let keptU := arrU.take eU; let keptF := arrF.take eF
+  let lost := fun (kept other : List Vec) => (other.filter (fun x => !kept.contains x)).find? (fun x =>
+    match exactWitness S kept x with
+    | some (_, b, _) => violationOK S eps kept b x
+    | none => false)
+  match lost keptU keptF, lost keptF keptU with
+  | none, none => return "skip within_tolerance"
+  | l1, l2 =>
+    let who := if l1.isSome then "used" else "fresh"
+    let x := (l1.orElse (fun _ => l2)).getD []
+    let kind := if wideVecs xs then "result_depends_on_previous_use_at_dynamic_range_above_2p16"
+      else if decide (M < 1000000) then "result_depends_on_previous_use" else "result_depends_on_previous_use_at_magnitude_above_1e6"
+    return s!"fail Pruner {kind} kept_used={eU} kept_fresh={eF} the_{who}_object_lost={showVec x}"
+
+/-- `wlp S k best v v2 | a1 a2 snaps` : `WitnessLP` used directly — reset, allocate, addOptimalRow for every row, two questions -/
+def wlp : P String := do
+  let S ← P.nat; let k ← P.nat; let best ← vecsP k S; let v ← vecP S; let v2 ← vecP S; P.bar
+  let a1 ← optVecP; let a2 ← optVecP; let snaps ← snapsP; P.eof
+  let M := maxAbsL (v :: v2 :: best)
+  let eps := ((k + 1 : Nat) : Rat) * linkSlack M + tiny M
+  let st := best.foldl WitnessLP.addOptimalRow WitnessLP.reset
+  let vd : Verdict := { tag := if k == 0 then "wlp trivial" else if WitnessLP.usedScale st v != 1 then "wlp scaled" else "wlp" }
+  let vd := vd.diffIf (snaps.length != 2) s!"WitnessLP lp_solve was called {snaps.length} times for 2 questions"
+  let vd := ([(0, v, a1), (1, v2, a2)] : List (Nat × Vec × Option Vec)).foldl (fun (vd : Verdict) q =>
+    let (i, qv, ans) := q
+    let vd := match snaps[i]? with
+      | some sn =>
+        let p := WitnessLP.posed st qv
+        let vd := vd.diffIf (!(sn.matches (S + 2) true S (WitnessLP.lpObjective S) (WitnessLP.lpRows S p)))
+                    s!"WitnessLP lp_rows question={i} rows={k} scale={ratStr (WitnessLP.usedScale st qv)}"
+        let mAns := WitnessLP.findWitness (fun _ => sn.answer S) st qv
+        vd.diffIf (mAns != ans) s!"WitnessLP answer question={i} model={mAns.isSome} impl={ans.isSome}"
+      | none => vd
+    if k == 0 then vd else
+    -- the oracle contract `pruner_spec` assumes, decided by the exact optimum of the witness question
+    match ans with
+    | some w =>
+      match normalize w with
+      | some w' => vd.failIf (best.any (fun g => decide (dot w' qv + lpTol M < dot w' g))) s!"WitnessLP witness_below_a_best_vector question={i}"
+      | none => vd.failIf true s!"WitnessLP witness_not_a_belief question={i}"
+    | none =>
+      match exactWitness S best qv with
+      | some (_, b, _) =>
+        let kind := missKind M (snaps[i]?)
+        vd.failIf (violationOK S eps best b qv) s!"WitnessLP {kind} v={showVec qv} rows={k} belief={showVec b}"
+      | none => vd) vd
+  return renderV vd
 
 /-! ### interpolation -/
 
@@ -317,7 +505,7 @@ def closeVec (a b : Vec) : Bool := a.length == b.length && (List.zipWith (fun x 
 /-- `lpi S A N point ubQ pts vals | status value w dual primal` -/
 def lpi : P String := do
   let i ← interpInP; P.bar
-  let out ← implOutP; let dual ← optVecP; let primal ← optVecP; P.eof
+  let out ← implOutP; let dual ← optVecP; let primal ← optVecP; let snaps ← snapsP; P.eof
   let comp := "LPInterpolation"
   if out.status != "ok" then return s!"fail {comp} throws_{out.status}"
   let cv := cornerVals i.ubQ
@@ -351,6 +539,12 @@ def lpi : P String := do
     let cpts := compat.map (fun j => i.pts.getD j [])
     let inp : LpIn := ⟨nonZero.map (fun s => (cpts.map (fun p => p.getD s 0), i.point.getD s 0)),
                        compat.map (fun j => i.vals.getD j 0 - dot (sel nonZero (i.pts.getD j [])) (sel nonZero cv))⟩
+    -- L2b, one level down: the LP handed to lp_solve is the model's LP (only the LP branch solves one)
+    let v := if k ≥ 2 then
+        match snaps with
+        | [sn] => v.diffIf (!(sn.matches (k + 1) false k (List.replicate k 0 ++ [1]) (WitnessLP.interpRows inp))) s!"{comp} lp_rows points={k} states={nonZero.length}"
+        | _ => v.diffIf true s!"{comp} lp_solve was called {snaps.length} times in the LP branch"
+      else v.diffIf (!snaps.isEmpty) s!"{comp} lp_solve was called {snaps.length} times on a shortcut branch"
     let tolV0 := ((i.S + i.N + 1 : Nat) : Rat) * Gen.equalToleranceSmall * M + tiny M
     let certified := k ≥ 2 && (match dual with
       | some h =>
@@ -381,9 +575,10 @@ def lpi : P String := do
 /-- `saw S A N point ubQ pts vals | status value w dual primal` -/
 def saw : P String := do
   let i ← interpInP; P.bar
-  let out ← implOutP; let dual ← optVecP; let primal ← optVecP; P.eof
+  let out ← implOutP; let dual ← optVecP; let primal ← optVecP; let snaps ← snapsP; P.eof
   let comp := "sawtoothInterpolation"
   if out.status != "ok" then return s!"fail {comp} throws_{out.status}"
+  if !snaps.isEmpty then return s!"diff {comp} lp_solve was called {snaps.length} times"
   let cv := cornerVals i.ubQ
   let M := maxQ (maxAbsL [cv, i.vals]) 1
   let model := sawtoothG Gen.C12Src.sawGuard srcVariant i.point i.ubQ i.A i.pts i.vals
@@ -427,6 +622,8 @@ def handle (toks : List String) : String :=
     | "bup" :: rest => P.run bup rest
     | "edi" :: rest => P.run edi rest
     | "prune" :: rest => P.run prune rest
+    | "wlp" :: rest => P.run wlp rest
+    | "reuse" :: rest => P.run reuse rest
     | "lpi" :: rest => P.run lpi rest
     | "saw" :: rest => P.run saw rest
     | _ => none
